@@ -119,7 +119,7 @@ def run(ctx, chk):
                             "remaining while that order still shows quantity (%s)" % (short(d2), why), describe_path(r))
     chk.require(n_iter >= 4 and n_exit >= 2, "T0", fn + ":shape", b.span, "match loop: %d iteration paths, %d exit paths" % (n_iter, n_exit))
     rule_drain(ctx, chk, L, "T3")
-    Q.rule_pop(chk, "T4", "T4", "T4")
+    Q.rule_pop(chk, "T4", "T4", "T4", seq=True)
 
 
 def rule_drain(ctx, chk, L, rid):
